@@ -554,3 +554,105 @@ Contract(
     allocates=True,
     props=P,
 )
+
+
+# =================================================================================================
+# ClockworkScheduler.run_admission : requests that can no longer meet their deadline are cancelled, never queued (C12 / C15)
+# =================================================================================================
+from contracts.c_sched import BASE, hopeless, PlacementList as _PL  # noqa: E402
+
+CW = "schedulers.clockwork_scheduler.ClockworkScheduler"
+MODELS = "schedulers.clockwork_scheduler.Models"
+Models = declare_ref(MODELS, {"_models": T.OPAQUE})
+Clockwork = declare_ref(CW, {"_goal": T.OPAQUE, "_run_load": T.BOOL, "_models": T.Ref(MODELS)}, bases=[BASE])
+CANCEL_TASK = S_.PlacementType.ty.ordinal("CANCEL_TASK")
+
+Contract(
+    MODELS + ".add_task",
+    params={"self": T.Ref(MODELS), "task": S_.TASKR},
+    trusted=True,
+    allocates=True,
+    may_raise=("ValueError", "AttributeError"),
+    modifies=lambda c: {},
+    ensures=lambda c: z3.BoolVal(True),
+    note="Models.add_task: files the task with the Model of its profile (Model.add_task is verified); touches no Task / Placement field and none of the caller's lists",
+    props=("C12", "C15"),
+)
+
+
+def _ra_inv(c, L):
+    h = c.post
+    pls = L.var("placements")
+    tasks = c.arg("tasks_to_schedule")
+    now = c.arg("current_time")
+    j, i = z3.Int(H.fresh_name("ra_j")), z3.Int(H.fresh_name("ra_i"))
+    pj = h.l_elem(_PL, pls, j)
+    task_of = lambda p_: h.rd(p_, PLACEMENT, "_computation")[1]
+    return {
+        "list_fresh": z3.And(pls >= c.alloc0, pls < c.run.cur_alloc()),
+        # every decision collected so far is a cancellation of a hopeless task
+        **{
+            "only_hopeless_cancelled." + nm: z3.ForAll([j], z3.Implies(z3.And(0 <= j, j < h.c_len(_PL, pls)), g), patterns=[pj])
+            for nm, g in {
+                "allocated_here": z3.And(pj != 0, pj >= c.alloc0, pj < c.run.cur_alloc()),
+                "is_cancellation": h.rd(pj, PLACEMENT, "_placement_type")[1] == CANCEL_TASK,
+                "enforcing": c.pre.rd(c.arg("self"), BASE, "_enforce_deadlines")[1],
+                "task_is_hopeless": hopeless(h, task_of(pj), now),
+            }.items()
+        },
+        "task_fields_untouched": z3.And(h.fld_arr(TASK, "_deadline")[2] == c.pre.fld_arr(TASK, "_deadline")[2], h.fld_arr(TASK, "_profile")[2] == c.pre.fld_arr(TASK, "_profile")[2]),
+    }
+
+
+def _ra_mod(c):
+    fr = c.run.frames[-1].env
+    pls = fr.get("placements")
+    out = {c.pre.carr(_PL, "len")[0]: [pls.z], c.pre.carr(_PL, "elem")[0]: [pls.z]}
+    for f in ("_placement_type", "_computation", "_placement_time", "_worker_pool_id", "_worker_id", "_strategy", "_id"):
+        out[c.pre.fld_arr(PLACEMENT, f)[0]] = []
+    return out
+
+
+def _ra_at_cancel(c, L):
+    return {"admit.cancel_only_if_hopeless": z3.And(c.pre.rd(c.arg("self"), BASE, "_enforce_deadlines")[1], hopeless(c.post, L.var("task"), c.arg("current_time")))}
+
+
+def _ra_at_queue(c, L):
+    return {"admit.hopeless_is_never_queued": z3.Not(z3.And(c.pre.rd(c.arg("self"), BASE, "_enforce_deadlines")[1], hopeless(c.post, L.var("task"), c.arg("current_time"))))}
+
+
+Contract(
+    CW + ".run_admission",
+    params={"self": T.Ref(CW), "current_time": ETy, "tasks_to_schedule": TaskList},
+    ret=_PL,
+    requires=lambda c: {
+        "tasks_not_none": z3.ForAll(
+            [z3.Int("rq_i")],
+            z3.Implies(z3.And(0 <= z3.Int("rq_i"), z3.Int("rq_i") < c.pre.c_len(TaskList, c.arg("tasks_to_schedule"))), c.pre.l_elem(TaskList, c.arg("tasks_to_schedule"), z3.Int("rq_i")) != 0),
+            patterns=[c.pre.l_elem(TaskList, c.arg("tasks_to_schedule"), z3.Int("rq_i"))],
+        ),
+        "models_present": c.pre.rd(c.arg("self"), CW, "_models")[1] != 0,
+    },
+    may_raise=("AttributeError", "ValueError"),
+    raise_unchanged=False,
+    modifies=lambda c: {},
+    loops={0: Loop(inv=_ra_inv, modifies=_ra_mod)},
+    locals={"placements": _PL},
+    at={"placements.append(Placement.create_task_cancellation(": _ra_at_cancel, "self._models.add_task(task)": _ra_at_queue},
+    ensures=lambda c: {
+        "admission.only_hopeless_tasks_cancelled": z3.ForAll(
+            [z3.Int("re_j")],
+            z3.Implies(
+                z3.And(0 <= z3.Int("re_j"), z3.Int("re_j") < c.post.c_len(_PL, c.res)),
+                z3.And(
+                    c.post.rd(c.post.l_elem(_PL, c.res, z3.Int("re_j")), PLACEMENT, "_placement_type")[1] == CANCEL_TASK,
+                    hopeless(c.post, c.post.rd(c.post.l_elem(_PL, c.res, z3.Int("re_j")), PLACEMENT, "_computation")[1], c.arg("current_time")),
+                ),
+            ),
+            patterns=[c.post.l_elem(_PL, c.res, z3.Int("re_j"))],
+        ),
+    },
+    allocates=True,
+    note="C12 for Clockwork: a request is answered with a cancellation iff enforcement is on and its deadline < now + runtime of its fastest strategy (program-point obligations admit.*), and only such requests appear in the returned list; every other request goes to its model's queues (Models.add_task assumed, Model.add_task verified)",
+    props=("C12", "C15"),
+)
